@@ -549,6 +549,11 @@ class Folder:
                     else:
                         items.append(Item("SUB", t=t, des=self.designator(a), val=self.sym(a)))
                 return
+            if re.match(r"^std::(accumulate|for_each|for_each_n|transform|reduce|transform_reduce|inner_product|copy|copy_n|copy_if|generate|generate_n|fill_n)$", sc) and \
+                    any(x["k"] == "LambdaExpr" or is_call(x, r"Codec<") for a_ in (e.get("args") or []) for x in walk(a_)):
+                # a standard algorithm driving codec calls through a callable: the iteration is inside the library template, not in a loop
+                # the folder can summarise — not decided, never guessed
+                raise Unfoldable("%s with a callable that touches the codec at %s" % (sc, e.get("loc")))
             if sc == "std::apply" or sc.endswith("::apply"):
                 lam = None
                 for x in walk(e["args"][0]):
